@@ -220,3 +220,14 @@ func init() {
 		NonTrivial: func(fp string) bool { return true },
 	}
 }
+
+func init() {
+	metaTable["C20"] = propMeta{Level: "exploration", CrashIsViolation: true, Assumptions: []string{
+		"the generators run over a simulated transport.Net that refuses to bind a UDP or TCP port already in use; SO_REUSEPORT semantics of real TCP listeners are OS behaviour and not modelled (reported as a limit in DESIGN.md)",
+		"the random source is scripted (always 0, always n-1, n/2, fixed sequences, PRNG); go1.26.8 -race build of /repo's working tree",
+	},
+		Rule: "per case one generator (port-range / static / pass-through) on IPv4 or IPv6 with (MinPort,MaxPort) drawn from boundary values {1,2,1023,1024,32767,32768,49152,65534,65535}, random pairs, single-port and tiny ranges, MaxRetries in {1,2,10,default}; 10-40 steps of allocate (UDP or TCP, with no / a free / an occupied requested port), close, and outsiders occupying ports of the range; every (conn, advertised address, error) is checked: advertised IP and port, range membership, requested port honoured, no port handed out twice, errors only when binding was impossible, Intn argument = range size, clean failure when the whole range is bound; " +
+			"non-trivial = distinct (generator, network, requested?, outcome, single-port?, max=65535?) fingerprints",
+		NonTrivial: func(fp string) bool { return true },
+	}
+}
